@@ -40,6 +40,16 @@ def cases(tier):
             rts = [R(n, rt, ["%s x" % pt], "{ return x; }")]
             for at in (["int32_t", "uint64_t", "int8_t"] if tier == "quick" else T8):
                 out.append((rts, P([(at, "a", "input"), ("int64_t", "r", "local")], "r = %s(a);" % n, ["r"]), ("identity", pt, rt, at)))
+    # argument forms: an explicit cast (or another expression) as the argument is evaluated first, then converted to the parameter type
+    ARGS = ["(int8_t)a", "(uint8_t)a", "(int16_t)a", "(uint16_t)a", "(uint32_t)a", "(int64_t)a", "(uint64_t)(int8_t)a", "(uint8_t)(a >> 4)", "a + 1", "-a", "(a < 3)", "5", "-5", "(a ? 1 : 2)", "(int8_t)a + (uint8_t)a"]
+    for pt in (T8 if tier == "thorough" else ["int8_t", "uint16_t", "int32_t", "uint32_t", "int64_t", "uint64_t"]):
+        n = "af_%s" % short(pt)
+        rts = [R(n, "int64_t", ["%s x" % pt], "{ return x; }")]
+        for ae in ARGS:
+            out.append((rts, P([("int32_t", "a", "input"), ("int64_t", "r", "local")], "r = %s(%s);" % (n, ae), ["r"]), ("arg-form", pt, ae)))
+    rts = [R("af2", "int64_t", ["int8_t x", "uint64_t y"], "{ return x + y; }")]
+    for ae in ARGS[:8]:
+        out.append((rts, P([("int32_t", "a", "input"), ("int64_t", "r", "local")], "r = af2(%s, %s);" % (ae, ae), ["r"]), ("arg-form2", ae)))
     # every spelling of an integer type a signature can use: as parameter (widened in the body) and as return type
     SPELLINGS = ["int", "unsigned", "size1s_t", "size1u_t", "size2s_t", "size2u_t", "size4s_t", "size4u_t", "size8s_t", "size8u_t"] + (T8 if tier == "thorough" else ["int16_t", "uint16_t"])
     for sp in SPELLINGS:
